@@ -8,6 +8,7 @@ import (
 	"fmt"
 	"math/rand"
 	"os"
+	"sort"
 	"strconv"
 
 	"github.com/ohler55/ojg/alt"
@@ -98,10 +99,39 @@ func observe(x, y any, ign []alt.Path) (o diffObs) {
 	for _, p := range alt.Diff(x, y, ign...) {
 		o.D = append(o.D, fromPath(p))
 	}
+	sortPaths(o.D)
 	if c := alt.Compare(x, y, ign...); c != nil {
 		o.C = append(o.C, fromPath(c))
 	}
 	return
+}
+
+// sortPaths puts the returned paths in a canonical order: the specification reads them as a set
+// (Go map iteration makes the order of Diff's result random anyway).
+func sortPaths(l []any) {
+	keys := make([]string, len(l))
+	for i, p := range l {
+		b, _ := json.Marshal(p)
+		keys[i] = string(b)
+	}
+	sort.Sort(&byKey{keys, l})
+}
+
+type byKey struct {
+	k []string
+	v []any
+}
+
+func (b *byKey) Len() int           { return len(b.k) }
+func (b *byKey) Less(i, j int) bool { return b.k[i] < b.k[j] }
+func (b *byKey) Swap(i, j int)      { b.k[i], b.k[j] = b.k[j], b.k[i]; b.v[i], b.v[j] = b.v[j], b.v[i] }
+
+func sameObs(x, y diffLine) bool {
+	x.F, y.F = "", ""
+	// Compare may legitimately pick different members of Diff's set in the two forms: keep both lines then
+	bx, _ := json.Marshal(x)
+	by, _ := json.Marshal(y)
+	return bytes.Equal(bx, by)
 }
 
 func match(f, t any) (m, pan bool) {
@@ -135,6 +165,7 @@ func diffExec(args []string) {
 			if c.Salt == 0 {
 				c.Salt = int64(n)
 			}
+			var lines []diffLine
 			for _, form := range []string{"simple", "gen"} {
 				// fresh values for every call group: nothing here is supposed to mutate them, but a
 				// defect that did must not leak into the next observation
@@ -173,6 +204,14 @@ func diffExec(args []string) {
 						tl.O = append(tl.O, ignObs{Ign: ord, AB: observe(x, y, ign), BA: observe(y, x, ign)})
 					}
 				}
+				lines = append(lines, tl)
+			}
+			// identical observations on identical projections are judged once (f = "both")
+			if len(lines) == 2 && sameObs(lines[0], lines[1]) {
+				lines[0].F = "both"
+				lines = lines[:1]
+			}
+			for _, tl := range lines {
 				if e := enc.Encode(tl); e != nil {
 					panic(e)
 				}
@@ -192,7 +231,7 @@ type rgen struct {
 	r *rand.Rand
 }
 
-var rkeys = []string{"a", "b", "c", "k1", "", "x y", "é", "0"}
+var rkeys = []string{"a", "b", "c", "k1", "", "x y", "0"}
 
 func (g *rgen) leaf() abs {
 	switch g.r.Intn(9) {
